@@ -11,7 +11,7 @@
     FRESH run: the reconciles that follow its last other event, executed by the real
     reconciler on a second, new store that holds the final owner objects and the pods as
     they were created. *)
-From KaiV Require Export Run.Prelude Model.Grouper Model.GrouperSpec.
+From KaiV Require Export Run.Prelude Model.Grouper Model.GrouperSpec Model.GrouperFaults.
 Open Scope Z_scope.
 
 (** [OwnE j o]: the [j]-th owner object of the cluster is replaced by [o] (keys removed, added, changed);
@@ -334,8 +334,197 @@ Definition case_flags (k : case) : list nat :=
                                                       && negb (group_restored k r ng)) (fr_final f)
                        end) (k_runs k)
   then [1%nat] else [].
-Definition run_flags (cs : list (nat * case)) : list (nat * list nat) :=
-  filter (fun p => negb (Nat.eqb (List.length (snd p)) 0)) (map (fun c => (fst c, case_flags (snd c))) cs).
 
-Definition run_mismatches (cs : list (nat * case)) : list nat := failing (fun k => negb (model_agrees k)) cs.
-Definition run_monitor (cs : list (nat * case)) : list nat := failing (fun k => negb (monitor_ok k)) cs.
+(** * Worlds with API faults on the owner GETs (Model/GrouperFaults.v)
+
+    A fault case is one world of several namespaces - owner objects and pods per namespace, several workloads,
+    the same kinds in different namespaces - plus several runs of the REAL reconciler over it, each on ONE
+    pod-grouper instance and a new API store: the rule in force at the start ([fu_rbac]: the (namespace, kind)
+    pairs whose GET the interceptor answers 403), then events - reconcile pod i under transient faults (kinds
+    answered 403 / NotFound or 5xx during this reconcile only), grant, revoke - with the same observation per
+    reconcile as above, and at the end the PodGroups of every namespace and every pod's annotation.
+    The reference runs of a case are runs of a single reconcile: a pod-grouper that just started, an empty
+    store, the answers some history run gave that pod. *)
+Record fpod := { fp_ns : string; fp_pod : pod; fp_chain : list gvk }.
+Inductive fev := FRecE (i : nat) (tr : transient) | FGrantE (n k : string) | FRevokeE (n k : string).
+Record frunrec := {
+  fu_rbac : rbac;
+  fu_events : list (fev * ev_obs);
+  fu_final : list (string * list (string * pg));     (* namespace -> its PodGroups, sorted by name *)
+  fu_final_ann : list (option string)
+}.
+Record fcase := { fk_cfg : config; fk_objs : nsmap (list obj); fk_pods : list fpod; fk_runs : list frunrec }.
+
+(** ** correspondence: [freconcile] replays the run *)
+Definition fagree_event (k : fcase) (st : rbac * wstate) (e : fev * ev_obs) : (rbac * wstate) * bool :=
+  let rb := fst st in
+  let ws := snd st in
+  let o := snd e in
+  match fst e with
+  | FRecE i tr =>
+    match nth_error (fk_pods k) i with
+    | None => (st, false)
+    | Some fp =>
+      let n := fp_ns fp in
+      let p := fp_pod fp in
+      let s := get_ns n ws in
+      let r := freconcile (fk_cfg k) (fk_objs k) rb n p tr ws in
+      let s' := get_ns n (fst r) in
+      let slot (x : state) := match eo_ann o with Some g => get_pg g x | None => None end in
+      ((rb, fst r),
+       Z.eqb (snd r) (eo_writes o)
+       && Bool.eqb (model_err (eff_cfg (fk_cfg k) rb n tr) (visible (tr_failing tr) (cluster_of (fk_objs k) n)) p
+                              (get_asg (p_name p) s)) (eo_err o)
+       && ostr_eqb (eff_ann p s') (eo_ann o)
+       && opg_ext_eqb (slot s) (eo_before o)
+       && opg_ext_eqb (slot s') (eo_after o))
+    end
+  | FGrantE n kd => ((grant n kd rb, ws), Z.eqb (eo_writes o) 0)
+  | FRevokeE n kd => ((revoke n kd rb, ws), Z.eqb (eo_writes o) 0)
+  end.
+
+Definition fagree_run (k : fcase) (r : frunrec) : bool :=
+  let res := fold_left (fun acc e => let x := fagree_event k (fst acc) e in (fst x, snd acc && snd x))
+                       (fu_events r) ((fu_rbac r, []), true) in
+  let ws := snd (fst res) in
+  snd res
+  && forallb (fun nl => Nat.eqb (List.length (st_pgs (get_ns (fst nl) ws))) (List.length (snd nl))
+                        && forallb (fun ng => opg_ext_eqb (get_pg (fst ng) (get_ns (fst nl) ws)) (Some (snd ng))) (snd nl))
+             (fu_final r)
+  && forallb (fun ns => existsb (fun nl => String.eqb (fst nl) (fst ns)) (fu_final r)) ws
+  && list_eqb ostr_eqb (map (fun fp => eff_ann (fp_pod fp) (get_ns (fp_ns fp) ws)) (fk_pods k)) (fu_final_ann r).
+
+Definition fmodel_agrees (k : fcase) : bool := forallb (fagree_run k) (fk_runs k).
+
+(** ** the property on the observed outputs only *)
+
+(** what the API server answers along the owner chain of a pod (direct owner first): how many owners are
+    readable, and why the walk ends there - 0 the chain ends, 1 the next GET is answered 403, 2 it is answered
+    NotFound / 5xx. Everything the grouper may learn about the owners is in this key. *)
+Definition mem (x : string) (l : list string) : bool := existsb (String.eqb x) l.
+Fixpoint answer_key (chain : list gvk) (fb fail : list string) : nat * nat :=
+  match chain with
+  | [] => (O, O)
+  | g :: r => if mem (g_kind g) fb then (O, 1%nat)
+              else if mem (g_kind g) fail then (O, 2%nat)
+              else let x := answer_key r fb fail in (S (fst x), snd x)
+  end.
+Definition key_eqb (a b : nat * nat) : bool := Nat.eqb (fst a) (fst b) && Nat.eqb (snd a) (snd b).
+
+(** one observed reconcile: the pod, the answers it got, what was observed *)
+Record robs := { ro_pod : nat; ro_key : nat * nat; ro_ref : bool; ro_o : ev_obs }.
+
+Definition fobs_of_run (k : fcase) (r : frunrec) : list robs :=
+  let is_ref := match fu_events r with [_] => true | _ => false end in   (* a single reconcile on a new instance *)
+  snd (fold_left (fun acc e =>
+                    let rb := fst acc in
+                    match fst e with
+                    | FRecE i tr =>
+                      match nth_error (fk_pods k) i with
+                      | None => acc
+                      | Some fp =>
+                        (rb, (snd acc ++ [{| ro_pod := i;
+                                             ro_key := answer_key (fp_chain fp)
+                                                                  (eff_forbidden (fk_cfg k) rb (fp_ns fp) tr) (tr_failing tr);
+                                             ro_ref := is_ref; ro_o := snd e |}])%list)
+                      end
+                    | FGrantE n kd => (grant n kd rb, snd acc)
+                    | FRevokeE n kd => (revoke n kd rb, snd acc)
+                    end) (fu_events r) (fu_rbac r, [])).
+
+Definition oref_eqb (a b : oref) : bool :=
+  gvk_eqb (r_gvk a) (r_gvk b) && String.eqb (r_name a) (r_name b) && String.eqb (r_uid a) (r_uid b).
+Definition fsiblings (k : fcase) (i j : nat) : bool :=
+  match nth_error (fk_pods k) i, nth_error (fk_pods k) j with
+  | Some a, Some b => negb (Nat.eqb i j) && String.eqb (fp_ns a) (fp_ns b)
+                      && list_eqb oref_eqb (p_owners (fp_pod a)) (p_owners (fp_pod b))
+  | _, _ => false
+  end.
+Definition key_class (k : fcase) (i : nat) (key : nat * nat) : gclass :=
+  match nth_error (fk_pods k) i with
+  | Some fp => class_from_top (rev (firstn (fst key) (fp_chain fp)))
+  | None => PerPod
+  end.
+Definition same_owned (a b : option pg) : bool :=
+  match a, b with
+  | Some x, Some y => oview_eqb (owned_view x) (owned_view y)
+  | _, _ => false
+  end.
+
+(** (F) the outcome of a reconcile is a function of the pod and the answers of the moment - not of the run it
+    is part of, nor of what was reconciled before: any two reconciles of the same pod under the same answers, in
+    whatever runs of the case (the reference runs on a new pod-grouper instance included), agree on the error,
+    on the PodGroup the pod is assigned to and on the grouper-owned fields of that PodGroup
+    (C18_assignment_function_of_answers, C18_history_independent_with_faults); and the PodGroup carries every
+    label and annotation that the reference run - one reconcile of that pod by a pod-grouper that just started,
+    on an empty store, under the same answers - gives it ([owned_agreeb], as in clause (5)); a PodGroup that the
+    reconcile CREATES is the PodGroup of the reference run in every field, the queue included;
+    (S) two siblings - same namespace, same owner reference - reconciled under the same answers are in one
+    PodGroup (kinds that share) or in two (per-pod kinds) (C18_siblings_under_equal_answers);
+    (E) a reconcile fails exactly when an owner GET is answered NotFound / 5xx; a successful one leaves the pod
+    assigned to an existing PodGroup of its namespace. Each observation is compared with the FIRST one of its
+    class, which is enough (the relations are transitive). *)
+Definition function_ok (k : fcase) (all : list robs) : bool :=
+  forallb (fun x =>
+             let o := ro_o x in
+             Bool.eqb (eo_err o) (Nat.eqb (snd (ro_key x)) 2)
+             && (eo_err o || match eo_ann o, eo_after o with Some _, Some _ => true | _, _ => false end)
+             && match find (fun y => Nat.eqb (ro_pod y) (ro_pod x) && key_eqb (ro_key y) (ro_key x)) all with
+                | Some y => Bool.eqb (eo_err (ro_o y)) (eo_err o)
+                            && (eo_err o || (ostr_eqb (eo_ann (ro_o y)) (eo_ann o)
+                                             && same_owned (eo_after (ro_o y)) (eo_after o)))
+                | None => false
+                end
+             && (eo_err o
+                 || match find (fun y => ro_ref y && Nat.eqb (ro_pod y) (ro_pod x) && key_eqb (ro_key y) (ro_key x)) all with
+                    | Some y => match eo_after (ro_o y), eo_after o with
+                                | Some gf, Some gh =>
+                                  owned_agreeb (fk_cfg k) gf gh
+                                  && match eo_before o with None => pg_ext_eqb gf gh | Some _ => true end
+                                | _, _ => false
+                                end
+                    | None => false
+                    end)
+             && (eo_err o
+                 || match find (fun y => fsiblings k (ro_pod y) (ro_pod x) && key_eqb (ro_key y) (ro_key x)
+                                         && negb (eo_err (ro_o y))) all with
+                    | Some y => match key_class k (ro_pod x) (ro_key x) with
+                                | Shared => ostr_eqb (eo_ann (ro_o y)) (eo_ann o)
+                                | PerPod => negb (ostr_eqb (eo_ann (ro_o y)) (eo_ann o))
+                                end
+                    | None => true
+                    end)) all.
+
+(** (I) reconciling a pod again under the answers of its last successful reconcile writes nothing, whatever
+    was reconciled, granted or revoked in between; a failing reconcile writes nothing; (A) no reconcile touches
+    the assignment of another pod: at the end every pod carries the annotation its own last reconcile left *)
+Definition fidem_run_ok (k : fcase) (r : frunrec) : bool :=
+  let obs := fobs_of_run k r in
+  snd (fold_left (fun acc x =>
+                    let o := ro_o x in
+                    let last := find (fun kv => Nat.eqb (fst kv) (ro_pod x)) (fst acc) in
+                    let ok := if eo_err o then Z.eqb (eo_writes o) 0
+                              else match last with
+                                   | Some kv => negb (key_eqb (snd kv) (ro_key x)) || Z.eqb (eo_writes o) 0
+                                   | None => true
+                                   end in
+                    (if eo_err o then fst acc else (ro_pod x, ro_key x) :: fst acc, snd acc && ok))
+                 obs ([], true))
+  && forallb (fun i => ostr_eqb (nth i (fu_final_ann r) None)
+                                (fold_left (fun a x => if Nat.eqb (ro_pod x) i then eo_ann (ro_o x) else a) obs None))
+             (seq 0 (List.length (fk_pods k))).
+
+Definition fmonitor_ok (k : fcase) : bool :=
+  function_ok k (flat_map (fobs_of_run k) (fk_runs k)) && forallb (fidem_run_ok k) (fk_runs k).
+
+(** * Cases of either kind *)
+Inductive tcase := CaseW (k : case) | CaseF (f : fcase).
+
+Definition run_flags (cs : list (nat * tcase)) : list (nat * list nat) :=
+  filter (fun p => negb (Nat.eqb (List.length (snd p)) 0))
+         (map (fun c => (fst c, match snd c with CaseW k => case_flags k | CaseF _ => [] end)) cs).
+
+Definition run_mismatches (cs : list (nat * tcase)) : list nat :=
+  failing (fun c => negb (match c with CaseW k => model_agrees k | CaseF f => fmodel_agrees f end)) cs.
+Definition run_monitor (cs : list (nat * tcase)) : list nat :=
+  failing (fun c => negb (match c with CaseW k => monitor_ok k | CaseF f => fmonitor_ok f end)) cs.
